@@ -5,7 +5,7 @@ import os
 
 from .facts import (AnalysisBroken, walk_expr, walk_all_exprs, walk_stmts, show, strip_casts, strip_copies,
                     member_path, stmt_children, Facts, strip_conv)
-from .genrules import GenModel, callers_of, field_chain, is_call, direct_exprs, guarded, guard_implies
+from .genrules import GenModel, callers_of, field_chain, is_call, direct_exprs, guarded, guard_implies, map_lookup
 from .cfg import CFG
 
 REGTYPE = 'RegisterIndex'
@@ -246,12 +246,12 @@ def c03(rep, tier):
                 continue
             ev, rhs = patched[fld]
             root, path = field_chain(rhs)
-            o = m.origin(gen, root) if root is not None else None
             key = None
-            if is_call(o, '::operator[]'):
-                oroot, opath = field_chain(o['obj'])
+            lk = map_lookup(m, gen, root) if root is not None else None
+            if lk is not None:
+                oroot, opath = field_chain(lk[0])
                 if opath[-1:] == ['funcAddrs']:
-                    key = m.strval(gen, o['args'][0])
+                    key = m.strval(gen, lk[1])
             ok = path == [src] and key is not None and key == root_name and len(pops) == 1 and g.dominates(pops[0], ev) \
                 and g.on_all_paths(ev)
             A.check(ok, inst, ':= funcAddrs["%s"].%s after popSymbols' % (root_name, src),
@@ -474,8 +474,9 @@ def c03(rep, tier):
             ds = m.defs(dv).get(d, [])
             o = strip_casts(ds[0][1]) if len(ds) == 1 else None
             o = strip_copies(o) if o else None
-            okrec = is_call(o, '::operator[]') and field_chain(o['obj'])[1][-1:] == ['funcAddrs']
-            keyvar = strip_casts(o['args'][0]) if okrec else None
+            lk = map_lookup(m, dv, o) if o is not None else None
+            okrec = lk is not None and field_chain(lk[0])[1][-1:] == ['funcAddrs']
+            keyvar = strip_casts(lk[1]) if okrec else None
             # guards: failed lookup returns, argnum mismatch returns
             guards = gv.guards_of(prep)
             lookup_ok = argn_ok = False
@@ -522,7 +523,20 @@ def c03(rep, tier):
         # funcAddrs[fgs.name] = p
         reg = [e for e in walk_all_exprs(pop['body']) if e.get('k') == 'call' and m.callee(e).endswith('::operator=') and is_call(strip_casts(e.get('obj')), '::operator[]')
                and field_chain(strip_casts(e['obj'])['obj'])[1][-1:] == ['funcAddrs']]
-        F.check(len(reg) == 1, 'popSymbols: registration', 'funcAddrs[name] = record', 'no registration of the finished routine', W(m, pop))
+        def on_table(e):
+            return e.get('obj') is not None and field_chain(strip_casts(e['obj']))[1][-1:] == ['funcAddrs']
+        assigning = [e for e in walk_all_exprs(pop['body']) if is_call(e, '::insert_or_assign') and on_table(e)]
+        keeping = [e for e in walk_all_exprs(pop['body']) if e.get('k') == 'call' and m.callee(e).split('::')[-1] in ('emplace', 'insert', 'try_emplace', 'emplace_hint') and on_table(e)]
+        erasing = [e for e in walk_all_exprs(pop['body']) if is_call(e, '::erase') and on_table(e)]
+        if len(reg) + len(assigning) == 1:
+            F.ok('popSymbols: registration', 'funcAddrs[name] = record (a later definition replaces an earlier one)', W(m, pop))
+        elif keeping and not erasing and not reg and not assigning:
+            F.violation('popSymbols: registration', 'the finished routine is registered with %s, which keeps an existing entry: a re-definition of a program name is '
+                        'silently ignored and later calls bind the stale routine' % m.callee(keeping[0]).split('::')[-1], W(m, pop, keeping[0]))
+        elif not (reg or assigning or keeping):
+            F.violation('popSymbols: registration', 'no registration of the finished routine', W(m, pop))
+        else:
+            F.unknown('popSymbols: registration', 'registration idiom not recognised (%d assignment(s), %d insert(s), %d erase(s))' % (len(reg) + len(assigning), len(keeping), len(erasing)))
 
     # ---------------------------------------------------------------- g: jumps
     G = rep.rule('C03.g', 'jumps are emitted only through emitBackpatched with a label operand; every created label is set '
